@@ -166,6 +166,10 @@ def buildOutcomes : List String → List Rat → List Rat → Option (List Outco
   | "s" :: ks, zs, gs => (buildOutcomes ks zs gs).map (Outcome.singular :: ·)
   | _, _, _ => none
 
+/-- split a flat list into rows of `n` entries -/
+def chunkR (n : Nat) (l : List Rat) : List (List Rat) :=
+  if n = 0 then [] else (List.range (l.length / n)).map fun k => (l.drop (k * n)).take n
+
 def handleC07 : List String → Option String
   | ["find", "dense", row, maxd, n] => do
       let row ← parseRats row
@@ -187,6 +191,17 @@ def handleC07 : List String → Option String
       match krigeSolve n (fun i j => ga.getD (i * n + j) 0) (fun i => g0a.getD i 0) v with
       | none => some "ok|singular"
       | some r => some s!"ok|{fmtRat r.estimate}|{fmtRat r.variance}|{fmtRat r.mu}|{fmtList fmtRat r.weights}"
+  | ["transform", maxd, minp, maxp, n, g, v, rows, g0s] => do
+      let maxd ← parseRat maxd.trimAscii.toString
+      let minp ← minp.trimAscii.toString.toNat?
+      let maxp ← maxp.trimAscii.toString.toNat?
+      let n ← n.trimAscii.toString.toNat?
+      let ga := (← parseRats g).toArray
+      let v ← parseRats v
+      let rows := chunkR n (← parseRats rows)
+      let g0s := chunkR n (← parseRats g0s)
+      let st := krigeTransform maxd minp maxp (fun i j => ga.getD (i * n + j) 0) v (rows.zip g0s)
+      some s!"ok|{fmtList fmtOptRat st.z}|{fmtList fmtOptRat st.sigma}|{st.noPoints}|{st.singular}"
   | ["loop", kinds, zs, gs] => do
       let zs ← parseRats zs
       let gs ← parseRats gs
@@ -197,6 +212,20 @@ def handleC07 : List String → Option String
 
 
 def handleC17 : List String → Option String
+  | ["jack", maxd, minp, maxp, n, d, g, v, sel] => do
+      let maxd ← parseRat maxd.trimAscii.toString
+      let minp ← minp.trimAscii.toString.toNat?
+      let maxp ← maxp.trimAscii.toString.toNat?
+      let n ← n.trimAscii.toString.toNat?
+      let D := chunkR n (← parseRats d)
+      let Gm := chunkR n (← parseRats g)
+      let v ← parseRats v
+      let sel ← parseNats sel
+      let devs := jackknife maxd minp maxp D Gm v sel
+      -- the neighbourhoods (indices into the full data set) for the harness's condition estimate
+      let nbs := sel.map fun i =>
+        (findClosestDense (deleteAt (D.getD i []) i) maxd maxp).map (skipIdx i)
+      some s!"ok|{fmtList fmtOptRat devs}|{";".intercalate (nbs.map (fmtList toString))}"
   | ["score", devs] => do
       let d ← parseOptRats devs
       some s!"ok|{fmtOptRat (mseScore d)}|{fmtOptRat (maeScore d)}|{fmtOptRat (maeScoreDefect d)}"
